@@ -38,6 +38,11 @@ def blocks(v, rng):
         (f"{v}/({b}*(exp({v}) - 1))", 0.0),
         (f"({v} + 47)/(1 - exp(-({v} + 47)/10))", -47.0),
         (f"(exp({v}) - 1)/{v}", 0.0),
+        # removable singularities that are not zeros of a denominator
+        (f"{v}*log(abs({v}))", 0.0),
+        (f"({v} - {a})*log(abs({v} - {a}))", float(a)),
+        (f"{v}*sin(1/{v})", 0.0),
+        (f"({v} + 47)*log(abs({v} + 47))", -47.0),
     ]
 
 
@@ -88,7 +93,8 @@ def main(argv=None):
     return rep.finish(
         level="proof",
         rule="one monitored expression built from 0-3 removable-singularity blocks (x/(exp(x)-1), sin(x)/x, (x-a)/(exp(x)-exp(a)), "
-             "x/(b(exp(x)-1)), a shifted gate rate, (exp(x)-1)/x) in one or two states, combined by + or *, next to a regular and an infinite "
+             "x/(b(exp(x)-1)), a shifted gate rate, (exp(x)-1)/x, and four that are not zeros of a denominator: x log|x|, (x-a) log|x-a|, x sin(1/x), "
+             "(x+47) log|x+47|) in one or two states, combined by + or *, next to a regular and an infinite "
              "(b/x) expression; single-component and split layouts (expression in a component without states); values on and off every "
              "singular point; non-trivial = at least one removable singularity",
         trusted_base=["Coq 8.16.1 kernel", "sympy.singularities / limit as oracles (limits re-checked with mpmath, 50 digits)", "numpy as evaluator"],
@@ -184,7 +190,7 @@ def text_expr(text, name):
 
 
 def mpmath_eval(expr, stv, pvals):
-    env = {"exp": mpmath.exp, "sin": mpmath.sin, "cos": mpmath.cos}
+    env = {"exp": mpmath.exp, "sin": mpmath.sin, "cos": mpmath.cos, "log": mpmath.log, "abs": abs}
     env.update({k: mpmath.mpf(v) for k, v in pvals.items()})
     env.update({k: mpmath.mpf(v) for k, v in stv.items()})
     import re
